@@ -16,7 +16,11 @@ pub enum Fault {
     DupTail { from: usize },
     /// misframing: the first `keep` bytes of this encoding followed by another honest encoding
     /// (index into the run's encoding list) starting at `from`
-    Splice { other: usize, keep: usize, from: usize },
+    Splice {
+        other: usize,
+        keep: usize,
+        from: usize,
+    },
     /// two honest messages delivered as one (concatenated frames)
     Concat { other: usize },
 }
@@ -39,7 +43,11 @@ impl Fault {
 /// Apply the faults in order. A fault whose offsets are out of range for the current buffer is
 /// not enabled and is skipped (keeps shrunken traces executable); returns the buffer and the
 /// kinds that actually fired.
-pub fn apply(src: &[u8], faults: &[Fault], others: &dyn Fn(usize) -> Option<Vec<u8>>) -> (Vec<u8>, Vec<&'static str>) {
+pub fn apply(
+    src: &[u8],
+    faults: &[Fault],
+    others: &dyn Fn(usize) -> Option<Vec<u8>>,
+) -> (Vec<u8>, Vec<&'static str>) {
     let mut b = src.to_vec();
     let mut fired = Vec::new();
     for f in faults {
